@@ -108,7 +108,7 @@ class Ray3D(Base1DIn3D):
         Args:
             factor: A number representing how much the ray should be scaled.
         """
-        return Ray3D(self.p.scale_world_origin(factor), self.v * factor)
+        return Ray3D(self.p.scale(factor), self.v * factor)
 
     def to_dict(self):
         """Get Ray3D as a dictionary."""
